@@ -886,6 +886,7 @@ fn serve_and_drop(cfg: &Cfg) {
             continue;
         }
         let bytes = spec::msg(spec::fe::SET_FEATURES, spec::F_VERSION1, &spec::p_u64(1 << 30));
+        let bytes_len = bytes.len();
         let workers_before: Vec<i32> = sys::threads().iter().map(|t| t.0).collect();
         let bc = BCfg { num_queues: 2, masks: vec![0b01, 0b10], ..BCfg::default() };
         let be: dmn::RB<V> = dmn::RB::new(bc);
@@ -916,6 +917,10 @@ fn serve_and_drop(cfg: &Cfg) {
         if should_ok && r.is_err() {
             report::violation(&format!("C16:serve:{}:reported-as-error", if *cut == 0 { "clean-disconnect" } else { "partial-header-disconnect" }), jo! {"peer_closed_after_bytes" => *cut, "serve" => format!("{:?}", r.as_ref().map_err(|e| e.to_string()))}, cfg.replay("serve"));
         }
+        // serve() is wait() with exactly those two outcomes forgiven: a disconnect inside a body stays an error
+        if *cut >= 12 && *cut < bytes_len && r.is_ok() {
+            report::violation("C16:serve:inside-body-disconnect:reported-as-success", jo! {"peer_closed_after_bytes" => *cut, "message_length" => bytes_len}, cfg.replay("serve"));
+        }
         // every worker's exit event was raised: the worker threads terminate on their own
         let gone = sys::wait_until(10_000, || !sys::threads().iter().any(|t| !workers_before.contains(&t.0) && t.1 == "vring_worker"));
         if !gone {
@@ -926,10 +931,12 @@ fn serve_and_drop(cfg: &Cfg) {
         let _ = std::fs::remove_file(&path);
     }
     // drop without serve: worker threads must terminate when the daemon is dropped
-    for k in 0..3u64 {
+    for k in 0..4u64 {
         if !cfg.mine(2000 + k) {
             continue;
         }
+        // k == 3: the peer stays connected (and silent) while the daemon is dropped
+        let mut kept_peer = None;
         {
             let bc = BCfg { num_queues: 3, masks: vec![0b001, 0b010, 0b100], ..BCfg::default() };
             let mut s: Sess<V> = Sess::new(bc);
@@ -940,7 +947,11 @@ fn serve_and_drop(cfg: &Cfg) {
                     s.daemon.request_shutdown();
                     let _ = s.daemon.wait();
                 }
-                drop(peer);
+                if k == 3 {
+                    kept_peer = Some(peer);
+                } else {
+                    drop(peer);
+                }
             }
         }
         let left = sys::wait_until(10_000, || sys::threads().iter().all(|t| baseline.contains(&t.0)));
@@ -948,8 +959,9 @@ fn serve_and_drop(cfg: &Cfg) {
         report::count("drop", 1);
         report::distinct_str(&format!("drop:{k}"));
         if !left {
-            report::violation("C16:drop:threads-left-behind", jo! {"threads" => sys::threads().iter().filter(|t| !baseline.contains(&t.0)).map(|t| t.1.clone()).collect::<Vec<String>>()}, cfg.replay("serve"));
+            report::violation(if k == 3 { "C16:drop:peer-still-connected:threads-left-behind" } else { "C16:drop:threads-left-behind" }, jo! {"threads" => sys::threads().iter().filter(|t| !baseline.contains(&t.0)).map(|t| t.1.clone()).collect::<Vec<String>>()}, cfg.replay("serve"));
         }
+        drop(kept_peer);
     }
 }
 
